@@ -86,7 +86,7 @@ func (c *verifUDPConn) AddPacketFromClient(status string, clientProxyBytes, prox
 	c.m.add("udpclient %s %s", c.client, status)
 }
 func (c *verifUDPConn) AddPacketFromTarget(status string, targetProxyBytes, proxyClientBytes int64) {}
-func (c *verifUDPConn) RemoveNatEntry()                                                            { c.m.add("udpremove %s", c.client) }
+func (c *verifUDPConn) RemoveNatEntry()                                                             { c.m.add("udpremove %s", c.client) }
 
 func (m *verifMetrics) AddOpenTCPConnection(conn net.Conn) service.TCPConnMetrics {
 	c := &verifTCPConn{m: m, local: conn.LocalAddr().String(), remote: conn.RemoteAddr().String()}
